@@ -15,8 +15,11 @@ import contextlib
 import gzip
 import io
 import itertools
+import json
 import os
+import pickle
 import shutil
+import subprocess
 import sys
 import tempfile
 import threading
@@ -104,7 +107,10 @@ def _make_exc() -> BaseException:
 def worker_init() -> None:
     if G:
         return
-    os.environ["TZ"] = "XXX-05:30"
+    # the zone must be in place before gallia.log is imported (it fixes its UTC offset at import time); the DST
+    # family therefore runs in a child interpreter started with C17_TZ set (see run_in_zone)
+    G["tz"] = os.environ.get("C17_TZ", M.DEFAULT_TZ)
+    os.environ["TZ"] = G["tz"]
     time.tzset()
     import logging
 
@@ -138,8 +144,23 @@ def worker_init() -> None:
 JOIN_TIMEOUT = 20.0  # only ever waited for when gallia fails to stop its listener thread
 
 
-def write_log(path: Path, specs: list[M.RecSpec], file_level: str, t0_us: int = 0) -> list[tuple[str, str]]:
-    """log ``specs`` through the real handler path; returns writer-side failures as (signature part, message)."""
+Event = tuple[str, str, list[str] | None, bool, int]  # level, text, tags, with exception trace, clock (us)
+
+
+def write_log(path: Path, specs: list[M.RecSpec], file_level: str, t0_us: int = 0, times_us: list[int] | None = None) -> list[tuple[str, str]]:
+    events: list[Event] = [
+        (level, M.TEXTS[text_k], M.TAGS[tags_i], exc, M.ts_us(i, t0_us) if times_us is None else times_us[i])
+        for i, (level, tags_i, text_k, exc) in enumerate(specs)
+    ]
+    return write_events(path, events, file_level)
+
+
+def write_events(path: Path, events: list[Event], file_level: str, stall_writer: bool = False) -> list[tuple[str, str]]:
+    """log ``events`` through the real handler path; returns writer-side failures as (signature part, message).
+
+    stall_writer: the file handler's lock (public logging.Handler.acquire/release) is held while the events are logged,
+    so the listener thread cannot write and the whole burst piles up in the handler queue - a slow sink.
+    """
     gl = G["gl"]
     logger = G["logger"]
     G["thread_exc"].clear()
@@ -147,12 +168,19 @@ def write_log(path: Path, specs: list[M.RecSpec], file_level: str, t0_us: int = 
     handler = gl.add_zst_log_handler(LOGGER, path, gl.Loglevel[file_level])
     lst = handler.queue_listener
     thread = getattr(lst, "_thread", None)
+    methods = {lv: getattr(logger, lv.lower()) for lv in M.LEVEL_NAMES}
+    clock = G["clock"]
     try:
-        for i, (level, tags_i, text_k, exc) in enumerate(specs):
-            G["clock"].us = M.ts_us(i, t0_us)
-            tags = M.TAGS[tags_i]
-            extra = None if tags is None else {"tags": list(tags)}
-            getattr(logger, level.lower())(M.TEXTS[text_k], extra=extra, exc_info=G["exc"] if exc else None)
+        if stall_writer:
+            handler.acquire()
+        try:
+            for level, text, tags, exc, us in events:
+                clock.us = us
+                extra = None if tags is None else {"tags": list(tags)}
+                methods[level](text, extra=extra, exc_info=G["exc"] if exc else None)
+        finally:
+            if stall_writer:
+                handler.release()
     finally:
         closer = threading.Thread(target=gl.remove_zst_log_handler, args=(LOGGER, handler), daemon=True)
         closer.start()
@@ -162,13 +190,17 @@ def write_log(path: Path, specs: list[M.RecSpec], file_level: str, t0_us: int = 
             G["leaked"] += 1
     if thread is not None and thread.is_alive():
         # gallia did not stop its listener: ask it to, so that the file is complete and nothing leaks into the next item
-        lst.enqueue_sentinel()
+        try:
+            lst.enqueue_sentinel()
+        except Exception:  # noqa: S110  a full queue: the listener will drain it, the timeout below bounds the wait
+            pass
         thread.join(JOIN_TIMEOUT)
         problems.append(("listener-thread-not-stopped", "the QueueListener thread was still running after remove_zst_log_handler()"))
         if thread.is_alive():
             G["leaked"] += 1
     for name, typ, msg in G["thread_exc"]:
-        problems.append((f"handler-thread-died|{typ}", f"thread {name} was killed by {typ}: {msg} - that record and all later ones never reach the file"))
+        what = "remove_zst_log_handler() raised" if "closer" in name or "Thread-" in name and "_monitor" not in name else "handler thread was killed by"
+        problems.append((f"handler-thread-died|{typ}", f"thread {name}: {what} {typ}: {msg}"))
     G["thread_exc"].clear()
     return problems
 
@@ -285,17 +317,22 @@ def short(x: Any, n: int = 60) -> str:
 class LogCase:
     """one written log + everything the oracle needs."""
 
-    def __init__(self, res: Result, item: Any, d: Path, specs: list[M.RecSpec], file_level: str = "TRACE", t0_us: int = 0) -> None:
+    def __init__(
+        self, res: Result, item: Any, d: Path, specs: list[M.RecSpec], file_level: str = "TRACE", t0_us: int = 0,
+        times_us: list[int] | None = None, time_labels: list[str] | None = None,
+    ) -> None:
         self.res = res
         self.item = item
         self.specs = specs
         self.file_level = file_level
         self.t0_us = t0_us
         self.dir = d
-        self.ref = M.ref_log(specs, file_level, t0_us)
+        self.times_us = times_us
+        self.time_labels = time_labels  # signature detail of the timestamp clause (DST family), per logged record
+        self.ref = M.ref_log(specs, file_level, t0_us, times_us)
         self.n = len(self.ref)
         self.prios = [r["prio"] for r in self.ref]
-        self.key = M_digest((specs, file_level))
+        self.key = M_digest((specs, file_level, t0_us, times_us))
         self.ok = False
         self.fw: list[Any] = []  # records of the baseline forward read (verified against ref)
         self.fwmap: dict[tuple[Any, ...], int] = {}
@@ -307,7 +344,7 @@ class LogCase:
         # failure shapes of records(p,k,rev) without history: on a fresh reader / on a reader whose len() was taken first
         self.base: dict[tuple[Any, ...], set[str | None]] = {}
         zpath = d / "as-written.json.zst"
-        for part, msg in write_log(zpath, specs, file_level, t0_us):
+        for part, msg in write_log(zpath, specs, file_level, t0_us, times_us):
             texts = ",".join(sorted({s[2] for s in specs}))
             self.violate(f"C17|write|{part}", f"{msg} [texts logged: {texts}]", {"op": "write"})
         try:
@@ -407,17 +444,21 @@ def check_roundtrip(lc: LogCase, variant: str, cont: str, reader: Any, baseline_
         return False
     for i, (ref, rec) in enumerate(zip(lc.ref, recs, strict=True)):
         obs = canon(rec)
-        spec = next(s for j, s in enumerate(lc.specs) if M.ts_us(j, lc.t0_us) == ref["ts_us"])
+        pos = next(j for j in range(len(lc.specs)) if (M.ts_us(j, lc.t0_us) if lc.times_us is None else lc.times_us[j]) == ref["ts_us"])
+        spec = lc.specs[pos]
         for clause in M.record_mismatches(ref, obs, G["trace"] if ref["exc"] else None):
             detail = {
                 "text": f"text={spec[2]}|exc={int(spec[3])}",
                 "level": f"level={spec[0]}",
                 "tags": f"tags={M.TAGS[spec[1]]!r}".replace(" ", ""),
-                "timestamp": "subsecond" if ref["ts_us"] % 1_000_000 else "whole-second",
+                "timestamp": lc.time_labels[pos] if lc.time_labels else ("subsecond" if ref["ts_us"] % 1_000_000 else "whole-second"),
             }[clause]
             got = {"text": (obs["data"], obs["stacktrace"]), "level": (obs["prio"], obs["levelno"]), "tags": obs["tags"], "timestamp": obs["dt"]}[clause]
             want = {"text": ref["text"], "level": (ref["prio"], ref["levelno"]), "tags": ref["tags"], "timestamp": M.ts_datetime(ref["ts_us"])}[clause]
-            bad(f"roundtrip|{clause}|{detail}", f"record {i} of {lc.n}: {clause} logged {short(want)} read back {short(got)}", {"record": i})
+            delta = ""
+            if clause == "timestamp" and obs["dt"] is not None and obs["dt"].tzinfo is not None:
+                delta = f" ({(obs['dt'] - want).total_seconds():+.6f} s; zone {G['tz']})"
+            bad(f"roundtrip|{clause}|{detail}", f"record {i} of {lc.n}: {clause} logged {short(want, 90)} read back {short(got, 90)}{delta}", {"record": i})
             ok = False
     if ok and (variant, cont) == ("prefix", "plain"):
         lc.fw = recs
